@@ -53,4 +53,53 @@ example :
         (fun r => (r.1.mpc, r.2)) = some (.fin .lock false, [.print 0x41]) := by
   refine ⟨?_, ?_, ?_, ?_, ?_⟩ <;> decide +kernel
 
+/-- **Every schedule has an expiry-normal form with the same result.**  Any table that meets `TimerOk`,
+    any start state that meets the invariant of the statement-grained system (`FInv`; every reachable
+    state does) with no timer pending, any schedule `ls` that runs to `r`: the schedule
+    `expNorm T ls.length f0 ls` is a permutation of `ls`, runs to the same `r` (final state — callback
+    indices included — and items), and is normal (`expNormal`): every `expire` in it stands directly
+    behind the statement `p.state = anywhere(r, p)` of the main goroutine that armed the timer it
+    consumes.  (Iteration of `expire_moves_earlier`: the expiry never has to cross a statement that
+    stops or re-arms the timer, another expiry, or the first statement of its own callback.)  So the
+    enumeration that lets a timer expire — if at all — right after it was armed (reduction 2 of
+    `enumerate`) loses no behaviour: the callback's statements can still be scheduled anywhere later. -/
+theorem expire_normal_form (T : Table) (hT : VaxisModel.Lemmas.ParserRunFine.TimerOk T) (f0 : FSys)
+    (hinv : VaxisModel.Lemmas.ParserRunFine.FInv f0) (ha : f0.armed = none) (ls : List FLabel)
+    (r : FSys × List Seq) (h : FSys.run T f0 ls = some r) :
+    ∃ ls', FSys.run T f0 ls' = some r ∧ ls'.Perm ls ∧ expNormal T false f0 ls' = true :=
+  ⟨expNorm T ls.length f0 ls, by rw [expNorm_run]; exact h, expNorm_perm T _ f0 ls,
+    expNorm_normal T hT ls.length f0 ls false (Nat.le_refl _) hinv (fun g hg => by rw [ha] at hg; cases hg)⟩
+
+/-- … from the initial state, for the parser's table: both normal forms at once — first the expiries
+    are pulled forward, then the `Close()` calls are carried to the next `select`; each step keeps
+    the result and permutes the schedule. -/
+theorem normal_forms_from_init (ls : List FLabel) (r : FSys × List Seq)
+    (h : FSys.run handTable FSys.init ls = some r) :
+    (∃ ls', FSys.run handTable FSys.init ls' = some r ∧ ls'.Perm ls ∧ expNormal handTable false FSys.init ls' = true) ∧
+    (∃ ls', FSys.run handTable FSys.init ls' = some r ∧ ls'.Perm ls ∧ closeNormal handTable FSys.init ls' = true) :=
+  ⟨expire_normal_form handTable VaxisModel.Lemmas.ParserRunFine.handTable_timerOk FSys.init
+      VaxisModel.Lemmas.ParserRunFine.FInv_init rfl ls r h,
+   closeSig_normal_form handTable FSys.init ls r h⟩
+
+-- non-vacuity: a lone ESC; the timer armed by `anywhere` (6th statement) expires only after the main goroutine
+-- has unlocked and gone back into the read, then the callback runs to its `emit` — not normal.  Normal form:
+-- the `expire` directly behind the arming statement; same final state (callback 0, generation 1, at
+-- `emitted`), same item (the Escape report).
+example :
+    expNormal handTable false FSys.init
+      [.main, .readRet (.rune 0x1B), .main, .main, .main, .main, .main, .main, .expire, .cb 0, .cb 0, .cb 0] = false ∧
+    expNorm handTable 12 FSys.init
+      [.main, .readRet (.rune 0x1B), .main, .main, .main, .main, .main, .main, .expire, .cb 0, .cb 0, .cb 0] =
+      [.main, .readRet (.rune 0x1B), .main, .main, .main, .main, .expire, .main, .main, .cb 0, .cb 0, .cb 0] ∧
+    expNormal handTable false FSys.init
+      [.main, .readRet (.rune 0x1B), .main, .main, .main, .main, .expire, .main, .main, .cb 0, .cb 0, .cb 0] = true ∧
+    FSys.run handTable FSys.init
+      [.main, .readRet (.rune 0x1B), .main, .main, .main, .main, .main, .main, .expire, .cb 0, .cb 0, .cb 0] =
+    FSys.run handTable FSys.init
+      [.main, .readRet (.rune 0x1B), .main, .main, .main, .main, .expire, .main, .main, .cb 0, .cb 0, .cb 0] ∧
+    (FSys.run handTable FSys.init
+      [.main, .readRet (.rune 0x1B), .main, .main, .main, .main, .expire, .main, .main, .cb 0, .cb 0, .cb 0]).map
+        (fun r => (r.1.mpc, r.1.cbs, r.2)) = some (.inRead, [(1, .emitted)], [.c0 0x1B]) := by
+  refine ⟨?_, ?_, ?_, ?_, ?_⟩ <;> decide +kernel
+
 end VaxisModel.Props.C08SchedNormal
